@@ -68,7 +68,8 @@ def lp_obs(opt, kind, variables, z, min_cons=None):
                      min_density=float(c["MINIMUM_DENSITY"]), max_density=float(c["MAXIMUM_DENSITY"]),
                      initial_area=float(c["INITIAL_BUILT_SEAWEED_AREA"])),
         caps={k: float(inp[k]) for k in inp if k.startswith("MAX_") and "_AS_PERCENT_KCALS_" in k},
-        T=float(inp["MINIMUM_PERCENT_FED_BEFORE_NONHUMAN_CONSUMPTION_ALLOWED"]), cc=inp["COUNTRY_CODE"])
+        T=float(inp["MINIMUM_PERCENT_FED_BEFORE_NONHUMAN_CONSUMPTION_ALLOWED"]), cc=inp["COUNTRY_CODE"],
+        include_fat=bool(inp["INCLUDE_FAT"]), include_protein=bool(inp["INCLUDE_PROTEIN"]))
     series = dict(
         crops=fl(tc["outdoor_crops"].production.kcals), meat=fl(tc["each_month_meat_slaughtered"].kcals),
         meat_running=fl(tc["max_consumed_culled_kcals_each_month"]), milk=fl(tc["milk_kcals"]),
